@@ -567,6 +567,18 @@ fn main() {
     }
 
     let thorough = args.thorough();
+
+    // minimised past failures first
+    if let Ok(rd) = std::fs::read_dir("/verif/corpus/C06") {
+        let mut files: Vec<_> = rd.filter_map(|e| e.ok()).map(|e| e.path()).filter(|p| p.extension().is_some_and(|x| x == "json")).collect();
+        files.sort();
+        for f in files {
+            let v: Value = serde_json::from_str(&std::fs::read_to_string(&f).unwrap()).unwrap();
+            let spec = spec_from(&v["replay"]);
+            run_session(&mut rep, &spec);
+            rep.count("sessions:corpus");
+        }
+    }
     // (advertised maximum command length, advertised maximum ack length)
     let mut limits: Vec<(u32, u32)> = vec![
         (24, 13), (24, 14), (24, 15), (24, 16), (21, 16), (21, 13), (22, 17), (24, 24), (64, 64), (128, 128), (1024, 1024),
@@ -590,11 +602,11 @@ fn main() {
             let m_r = (ma as u64).saturating_sub(12).min(65535).max(1);
             let m_w = (mc as u64).saturating_sub(20).max(1);
             // bound the number of transactions per op so tiny limits stay fast
-            let max_txn: u64 = if thorough { 1500 } else { 300 };
+            let max_txn: u64 = if thorough { 1000 } else { 300 };
             let cap_r = (m_r * max_txn).min(cap_total);
             let cap_w = (m_w * max_txn).min(cap_total);
             let mut ops = vec![Op::Open, Op::Retry(*retry), Op::Dev { mc, ma, ms: 0, plan: plan.clone() }];
-            let ks: Vec<u64> = if thorough { vec![1, 2, 3, 4, 7, 16, 64] } else { vec![1, 2, 3] };
+            let ks: Vec<u64> = if thorough { vec![1, 2, 3, 4, 7, 16] } else { vec![1, 2, 3] };
             let mut rl = lengths_around(m_r, &ks, cap_r);
             let mut wl = lengths_around(m_w, &ks, cap_w);
             if pi == 0 || thorough {
